@@ -128,7 +128,7 @@ class LCAOInterpolator:
             )
 
         shape = (nrad, self.atco.nbas, 4)
-        if self._n0 > 0:
+        if self._n0 > 0 or self._n1 > 0:
             self.w0_rsp = np.empty(shape, dtype=np.float64, order="C")
             _call_spline_(self.w0_rsp, self._l0bas, self._l0env)
         if self._n1 > 0:
